@@ -61,6 +61,7 @@ func runC06(r *Report, rng *rand.Rand, thorough bool) {
 		errh     bool
 	}
 	metas := map[string]meta{}
+	brokenPkg := map[string]bool{}
 	add := func(fw string, c pcell, kind string, wantOK bool, req map[string]any) {
 		for _, errh := range []bool{false, true} {
 			if !thorough && errh && rng.Intn(3) != 0 {
@@ -94,7 +95,12 @@ func runC06(r *Report, rng *rand.Rand, thorough bool) {
 	for _, loc := range paramLocs {
 		for _, fw := range Frameworks {
 			for _, c := range cells[loc] {
-				if !lab.Status[cellPkg(fw, c)].OK {
+				if st := lab.Status[cellPkg(fw, c)]; !st.OK {
+					// cells that cannot be exercised are a result, not a gap to pass over in silence
+					if name := cellPkg(fw, c); !brokenPkg[name] {
+						brokenPkg[name] = true
+						r.Violate("lab_package_broken:"+name, fmt.Sprintf("package %s does not build: generate error %q, compile error %q", name, st.GenerateError, trunc(st.CompileError, 400)), map[string]any{"framework": fw, "location": loc})
+					}
 					continue
 				}
 				// missing parameter
